@@ -4,6 +4,7 @@ import re
 from sa.paths import gate_check, loops, Cfg
 from sa.flow import value_sources, origin_chain, all_defs
 from sa.match import holds, const_value, comparison
+from props.common import assignments as _assign14
 from sa.build import AnalysisBroken
 from props.common import declref, assignments
 
@@ -199,6 +200,30 @@ def run(ck):
     cw = [f for f in PM.fns if f.q.endswith('send_encrypted_message')][0]
     check_writer(ck, cw, 'cli send_encrypted_message', 2, ('kTransportMaxPayloadSize',), r'socket_send_all$', 12, 4)
     rl = P.fn(SM + 'receive_loop')
+    from sa.paths import reaches as _reaches
+    # ---- the key a frame is decrypted with is read when the frame is complete, and session sockets have no send timeout ----------------
+    key_copies = [s_ for l_, r_, s_ in _assign14(rl) if (rl.nodes[rl.strip(r_)].get('m') or '').endswith('Session::key')]
+    applies = [i for i in rl.walk() if (rl.nodes[i].get('callee') or '').endswith('ChaCha20::apply')]
+    recvs14 = [i for i in rl.walk() if (rl.nodes[i].get('callee') or '').endswith('recv_all')]
+    stale = [(k_, r_) for k_ in key_copies for r_ in recvs14 for a_ in applies if _reaches(rl, k_, r_) and _reaches(rl, r_, a_) and rl.nodes[r_].get('l', 0) < rl.nodes[a_].get('l', 0)]
+    # (a recv that follows the apply belongs to the next frame: the loop back edge makes every later statement reachable, so only a
+    # recv that lies between the copy and the apply inside one iteration counts)
+    stale = [(k_, r_) for k_, r_ in stale if rl.nodes[k_].get('l', 0) < rl.nodes[r_].get('l', 0)]
+    ck.floor('C14.order', 'session-key reads in receive_loop', len(key_copies), 1)
+    ck.ob('C14.order', 'C14.order/key-read-after-frame-received', not stale, rl.loc(stale[0][0]) if stale else rl.loc(),
+          'receive_loop reads session->key for a frame only after the whole frame has arrived (a key rotated while the reader blocks must be used for the next frame)')
+    snd = []
+    for f_ in P.fns:
+        if not f_.file.endswith('SessionManager.cpp'):
+            continue
+        for i in f_.walk():
+            if (f_.nodes[i].get('callee') or '') == 'setsockopt':
+                a_ = f_.call_args(i)
+                if len(a_) >= 3 and const_value(f_, a_[2]) == 21:      # SO_SNDTIMEO (Linux)
+                    snd.append((f_, i))
+    ck.ob('C14.order', 'C14.order/no-send-timeout', not snd, snd[0][0].loc(snd[0][1]) if snd else '',
+          'session sockets get no SO_SNDTIMEO: a frame is written whole or the connection is dead (send() does not resume or tear down after a partial write)')
+
     pt = check_reader(ck, rl, 'SessionManager::receive_loop', ('kMaxPayloadSize',), r'::recv_all$', 12, 4)
     check_reader(ck, P.fn(SM + 'receive_transport_handshake_ack'), 'receive_transport_handshake_ack', ('kMaxPayloadSize',), r'::recv_all$', 12, 4)
     cr = [f for f in PM.fns if f.q.endswith('read_encrypted_message')][0]
